@@ -403,8 +403,8 @@ def gen_run(run_seed: int, tier: str) -> Dict[str, Any]:
     nS, nB = len(battery.STRUCT), len(battery.BUILD)
 
     shape = r_ops.choices(
-        ["concurrent_first", "late_joiner", "single_history", "burst", "shared_user", "big_payload", "churn", "long_life", "same_hook"],
-        weights=[32, 12, 16, 5, 17, 5, 5, 2, 6],
+        ["concurrent_first", "late_joiner", "single_history", "burst", "shared_user", "big_payload", "churn", "long_life", "same_hook", "handoff"],
+        weights=[30, 11, 15, 5, 16, 5, 5, 2, 6, 5],
     )[0]
     if shape in ("single_history", "burst", "churn", "long_life"):
         n = 1
@@ -412,6 +412,8 @@ def gen_run(run_seed: int, tier: str) -> Dict[str, Any]:
         n = r_ops.choice([2, 2, 3])
     elif shape == "same_hook":
         n = r_ops.choice([2, 2, 3, 4])
+    elif shape == "handoff":
+        n = r_ops.choice([2, 3, 3, 4])
     else:
         n = r_ops.choice([2, 2, 2, 3, 3, 4, 5, 6])
     n_shared = 0
@@ -473,7 +475,21 @@ def gen_run(run_seed: int, tier: str) -> Dict[str, Any]:
     for t in range(n):
         ops: List[List[Any]] = []
         nslots = 0
-        if shape == "same_hook":
+        if shape == "handoff":
+            # thread 0 creates converters and hands them over; the other threads are pure CONSUMERS:
+            # they never call get_converter themselves (the usual server: main thread creates, workers use)
+            if t == 0:
+                ops.append(get_op(0, allow_shared=False))
+                ops.append(["PUBLISH", 0, 0])
+                ops.append(get_op(1, allow_shared=False))
+                ops.append(["PUBLISH", 1, 1])
+                ops += use_ops(0, 2)
+                nslots = 2
+            else:
+                for _ in range(r_ops.randint(3, 8)):
+                    ops.append(["USEG", r_ops.randrange(2), pick_k()])
+                nslots = 0
+        elif shape == "same_hook":
             # every thread, on its own converter, handles the SAME kind of message at the same time: two
             # threads inside the same hand-written hook (and whatever it does to process-wide state)
             if t == 0:
@@ -584,6 +600,9 @@ def gen_run(run_seed: int, tier: str) -> Dict[str, Any]:
         threads.append(ops)
 
     start_after = [0] * n
+    if shape == "handoff":
+        for t in range(1, n):
+            start_after[t] = r_ops.choice([0, 9000, 15000, 30000])
     if shape == "late_joiner" and n > 1:
         for t in range(1, n):
             if r_ops.random() < 0.7:
